@@ -25,11 +25,12 @@ class Unsupported(EngineError):
 
 
 class SV:
-    __slots__ = ('term', 'ty')
+    __slots__ = ('term', 'ty', 'truth')
 
-    def __init__(self, term, ty):
+    def __init__(self, term, ty, truth=None):
         self.term = term
         self.ty = ty
+        self.truth = truth      # precomputed truthiness (values produced by and/or on mixed types)
 
     def __repr__(self):
         return 'SV(%s : %r)' % (self.term, self.ty)
@@ -144,6 +145,8 @@ class Engine:
         self.tyenv = T.TyEnv()
         self.tyenv.aliases.update(sidecar.aliases)
         self.tyenv.abstract.update(sidecar.sorts)
+        frontend.finalize()
+        self.tyenv.resolver = lambda nm: frontend.resolve(nm, None, strict=False)
         self.strconsts = {}
         self.ghost_syms = {}
         self.pure_syms = {}
@@ -153,8 +156,9 @@ class Engine:
         self.counter = itertools.count()
         self.abs_consts = {}
         for cname, d in sidecar.fields.items():
+            key = frontend.resolve(cname, None, strict=False) or cname
             for a, t in d.items():
-                self.field_types.setdefault(a, {})[cname] = t
+                self.field_types.setdefault(a, {})[key] = t
         self.prelude = P.axioms()
         self.assumptions = set()      # textual list of assumptions used (for evidence)
         self.class_ids = {}
@@ -345,9 +349,13 @@ class FuncVerifier:
             return z3.Or(term == P.none, self.typed_fact(term, inner))
         return z3.BoolVal(True)
 
+    def class_key(self, name):
+        k = self.E.fe.resolve(name, self.module, strict=False)
+        return k if k is not None else name
+
     def isinstance_term(self, term, cnames):
         ids = set()
-        for cn in cnames:
+        for cn in [self.class_key(c) for c in cnames]:
             subs = self.E.fe.subclasses(cn) if cn in self.E.fe.classes else []
             if cn in self.E.sc.classdecl or not subs:
                 subs = list(subs) + [cn] + [k for k, bs in self.E.sc.classdecl.items() if cn in self._decl_mro(k)]
@@ -447,6 +455,8 @@ class FuncVerifier:
 
     # ------------------------------------------------------------ truthiness / equality
     def truthy(self, sv):
+        if sv.truth is not None:
+            return sv.truth
         k = sv.ty.kind
         t = sv.term
         if k == 'bool':
@@ -513,11 +523,16 @@ class FuncVerifier:
         raise EngineError('equality between %r and %r' % (ta, tb))
 
     def eq_family(self, cname):
-        """name of the class along the MRO that defines __eq__ (None: identity)"""
+        """does == on a value of static class cname dispatch to a user __eq__ (own, inherited, or of a subclass)?"""
+        fe = self.E.fe
         for c in cname.split('|'):
-            ci, m = self.E.fe.resolve_method(c, '__eq__') if c in self.E.fe.classes else (None, None)
-            if m is not None:
+            if c not in fe.classes:
+                continue
+            if fe.resolve_method(c, '__eq__')[1] is not None:
                 return True
+            for sub in fe.subclasses(c):
+                if '__eq__' in fe.classes[sub].methods:
+                    return True
         return False
 
     def obj_eq(self, a, b, st, spec, node=None):
@@ -586,6 +601,11 @@ class FuncVerifier:
         sv = self.global_value(name, st)
         if sv is not None:
             return sv
+        # a class used as a value (type(x) in (A, B), isinstance handled elsewhere)
+        if self.module is not None:
+            ck = self.E.fe.resolve(name, self.module, strict=False)
+            if ck is not None and (name in self.module.classes or name in self.module.imports):
+                return SV(P.I(z3.IntVal(self.E.class_id(ck))), T.Abs('PyType'))
         self.err(node, 'unknown name %r' % name)
 
     def global_key(self, name):
@@ -729,9 +749,14 @@ class FuncVerifier:
             ts = [self.truthy(v) for v in vals]
             return SV(z3.And(*ts) if is_and else z3.Or(*ts), BOOL)
         # value semantics
+        ts = [self.truthy(v) for v in vals]
+        truth = z3.And(*ts) if is_and else z3.Or(*ts)
         ty = vals[0].ty
         for v in vals[1:]:
             ty = T.join(ty, v.ty)
+        if ty.is_any:
+            # mixed operand types: only the truthiness of the result is tracked
+            return SV(self.E.fresh('boolop', ANY).term, ANY, truth)
         res = coerce(vals[-1], ty)
         for v in reversed(vals[:-1]):
             tv = self.truthy(v)
@@ -934,6 +959,20 @@ class FuncVerifier:
             return self.E.parse_ty(d['*'])
         self.err(node, 'class %s has no declared field %s' % (cname, attr))
 
+    def subclass_field(self, cname, attr, node):
+        d = self.E.field_types.get(attr) or {}
+        fe = self.E.fe
+        owners, tys = [], set()
+        for c in cname.split('|'):
+            subs = fe.subclasses(c) if c in fe.classes else []
+            for owner, t in d.items():
+                if owner in subs or c in self._decl_mro(owner):
+                    owners.append(owner)
+                    tys.add(t)
+        if not owners or len(tys) != 1:
+            self.err(node, 'class %s has no declared field %s (and no unique subclass field)' % (cname, attr))
+        return self.E.parse_ty(tys.pop()), owners
+
     @staticmethod
     def heap_key(attr, fty):
         k = fty.kind
@@ -995,7 +1034,12 @@ class FuncVerifier:
             bt = bt.strip_opt()
         if not bt.is_obj:
             self.err(node, 'attribute .%s on %r' % (node.attr, bt))
-        fty = self.field_type(bt.name, node.attr, node)
+        try:
+            fty = self.field_type(bt.name, node.attr, node)
+        except Unsupported:
+            # the static class does not declare the field: it must be one of the subclasses that do
+            fty, owners = self.subclass_field(bt.name, node.attr, node)
+            self.safety(st, 'attr', self.isinstance_term(base.term, owners), node, spec)
         arr = self.heap_array(st, node.attr, fty)
         val = z3.Select(arr, base.term)
         sv = SV(val, fty)
